@@ -37,7 +37,7 @@ type CaseC05 struct {
 func genC05(rt *rapid.T) CaseC05 {
 	c := CaseC05{
 		Type:   rapid.SampledFrom([]string{"eventlog", "keyvalue", "docstore"}).Draw(rt, "type"),
-		Others: rapid.IntRange(0, 2).Draw(rt, "others"),
+		Others: rapid.SampledFrom([]int{0, 1, 2, 2}).Draw(rt, "others"),
 	}
 	max := 8
 	if thorough() {
@@ -62,6 +62,14 @@ func genC05(rt *rapid.T) CaseC05 {
 			st.W = rapid.IntRange(1, c.Others).Draw(rt, "w")
 		}
 		c.Steps = append(c.Steps, st)
+	}
+	if c.Others == 2 && rapid.IntRange(0, 2).Draw(rt, "tail") == 0 {
+		// concurrent branches of two remote writers arriving in separate replication rounds, nothing local afterwards
+		a := rapid.IntRange(1, 2).Draw(rt, "tailfirst")
+		c.Steps = append(c.Steps,
+			StepC05{Kind: "remote", W: a, N: rapid.IntRange(1, 2).Draw(rt, "tn1"), Key: 1},
+			StepC05{Kind: "remote", W: 3 - a, N: rapid.IntRange(1, 2).Draw(rt, "tn2"), Key: 2},
+			StepC05{Kind: "merge", W: a}, StepC05{Kind: "merge", W: 3 - a})
 	}
 	c.Sample = rapid.SliceOfN(rapid.IntRange(0, 100000), 12, 12).Draw(rt, "sample")
 	return c
